@@ -34,7 +34,7 @@ See `parse_template()` for details.
 
 import re
 from functools import lru_cache
-from typing import List, Optional, Tuple
+from typing import List, Optional, Tuple, Union
 
 from django.template.base import DebugLexer, Token, TokenType
 from django.template.exceptions import TemplateSyntaxError
@@ -67,6 +67,7 @@ def parse_template(text: str) -> List[Token]:
     index_start = 0
     index_end = len(text)
     lineno_offset = 0
+    verbatim: Union[str, bool] = False
 
     while index_start < index_end:
         broken_token: Optional[Token] = None
@@ -74,6 +75,8 @@ def parse_template(text: str) -> List[Token]:
         # We use DebugLexer because we need to get the position of the tokens.
         # DebugLexer and Lexer have very similar speeds, Debug is about 33% slower.
         lexer = DebugLexer(text[index_start:index_end])
+        # If the tag that we've just re-parsed opened a `{% verbatim %}` block, the new lexer must know
+        lexer.verbatim = verbatim
         tokens: List[Token] = lexer.tokenize()
 
         for token in tokens:
@@ -93,6 +96,8 @@ def parse_template(text: str) -> List[Token]:
 
             resolved_tokens.append(fixed_token)
             index_start = fixed_token.position[1]
+            # Same condition as in Django's `Lexer.create_token()`
+            verbatim = f"end{fixed_token.contents}" if fixed_token.contents[:9] in ("verbatim", "verbatim ") else False
             # NOTE: `fixed_token.lineno` is already absolute, and the newlines must be counted
             # on the whole tag, because `contents` has the surrounding whitespace stripped.
             lineno_offset = (
